@@ -44,12 +44,18 @@ def cv_cases(rng, n):
                     seen.add(t)
                     uniq.append((t, v))
             kids = uniq
-        out.append((rng.choice(TAGS), rng.choice(['_', '5', '77']), kids))
+        order = None
+        if rng.random() < 0.6:
+            order = list(TAGS)
+            rng.shuffle(order)
+            order = order[:rng.randint(2, len(order))]
+        out.append((rng.choice(TAGS), rng.choice(['_', '5', '77']), kids, order))
     return out
 
 
 def cv_line(c):
-    return 'cv %s %s ; %s' % (c[0], c[1], ' '.join('%s:%s' % kv for kv in c[2]))
+    later = c[3][c[3].index(c[0]) + 1:] if c[3] and c[0] in c[3] else []
+    return 'cv %s %s %s ; %s' % (c[0], c[1], ' '.join(later), ' '.join('%s:%s' % kv for kv in c[2]))
 
 
 def cv_impl(c):
@@ -58,7 +64,7 @@ def cv_impl(c):
     outer = E.outer()
     for t, v in c[2]:
         outer.append(E(t, v))
-    _correctValInNode(outer, c[0], None if c[1] == '_' else c[1])
+    _correctValInNode(outer, c[0], None if c[1] == '_' else c[1], c[3])
     return ' '.join('%s:%s' % (ch.tag.split('}')[-1], ch.text) for ch in outer)
 
 
